@@ -160,7 +160,7 @@ fn bn<D, T>(d: D) -> Option<Box<dyn Obj>> where D: Distribution<T> + Clone + Deb
 }
 
 macro_rules! ent { ($v:ident, $fam:expr, $ft:expr, $var:expr, [$($p:expr),*], $mk:expr) => {
-    $v.push(Entry { family: $fam, ft: $ft, params: vec![$($p as f64),*], variant: $var, make: Box::new(move || $mk) });
+    $v.push(Entry { family: $fam, ft: $ft, params: vec![$($p as f64),*], variant: $var, make: Box::new(move || crate::util::guarded(|| $mk).ok().flatten()) });
 } }
 
 /// entries for one float type
@@ -284,9 +284,10 @@ macro_rules! float_tree_entries { ($v:ident, $F:ty, $ft:expr, $n:expr) => {{
             Some((t, ws))
         };
         // params = the weight list the call history describes (tracked by the harness, not read back from the tree)
-        let params: Vec<f64> = match mk() { Some((_, ws)) => ws.iter().map(|&x| x as f64).collect(), None => vec![] };
+        // a panic inside the history (push/pop/update) is C09's business: the entry is then skipped here
+        let params: Vec<f64> = match crate::util::guarded(mk).ok().flatten() { Some((_, ws)) => ws.iter().map(|&x| x as f64).collect(), None => vec![] };
         $v.push(Entry { family: "WeightedTreeIndex", ft: $ft, params, variant: "after-updates",
-            make: Box::new(move || mk().and_then(|(t, _)| bt::<$F>(t))) });
+            make: Box::new(move || crate::util::guarded(mk).ok().flatten().and_then(|(t, _)| bt::<$F>(t))) });
     }
 }} }
 
@@ -311,9 +312,9 @@ fn int_tree_entries(v: &mut Vec<Entry>, n: usize) {
             if ws.iter().all(|&x| x == 0) { let i = ws.len() - 1; if t.update(i, 2).is_ok() { ws[i] = 2; } }
             Some((t, ws))
         };
-        let params: Vec<f64> = match mk() { Some((_, ws)) => ws.iter().map(|&x| x as f64).collect(), None => vec![] };
+        let params: Vec<f64> = match crate::util::guarded(mk).ok().flatten() { Some((_, ws)) => ws.iter().map(|&x| x as f64).collect(), None => vec![] };
         v.push(Entry { family: "WeightedTreeIndex", ft: "int", params, variant: "after-updates",
-            make: Box::new(move || mk().and_then(|(t, _)| bt::<u32>(t))) });
+            make: Box::new(move || crate::util::guarded(mk).ok().flatten().and_then(|(t, _)| bt::<u32>(t))) });
     }
 }
 
